@@ -9,7 +9,7 @@ one() {
   id=$1; wt=/tmp/nx/$id
   git -C /repo worktree add -q --detach $wt HEAD 2>/dev/null || { echo "$id worktree failed"; return; }
   if git -C $wt apply /verif/negative/$id/patch.diff 2>/dev/null; then
-    ./bin/verif check -property all -repo $wt -verif /verif -no-evidence > negative/$id/checks_now.txt 2>&1
+    ${VERIF_BIN:-./bin/verif} check -property all -repo $wt -verif /verif -no-evidence > negative/$id/checks_now.txt 2>&1
   else
     echo "patch does not apply" > negative/$id/checks_now.txt
   fi
